@@ -238,6 +238,8 @@ pub struct Repair<N: Network> {
     blockstore: SharedBlockstore,
     pool: SharedPool,
     slice_roots: BTreeMap<(BlockId, SliceIndex), SliceRoot>,
+    /// Index of the last slice of each block, as proven by a `LastSliceRoot` response.
+    last_slices: BTreeMap<BlockId, SliceIndex>,
     outstanding_requests: BTreeMap<Hash, RepairRequestType>,
     /// Expiry times of outstanding requests, earliest first (min-heap via [`Reverse`]).
     request_timeouts: BinaryHeap<Reverse<(Instant, Hash)>>,
@@ -266,6 +268,7 @@ where
             blockstore,
             pool,
             slice_roots: BTreeMap::new(),
+            last_slices: BTreeMap::new(),
             outstanding_requests: BTreeMap::new(),
             request_timeouts: BinaryHeap::new(),
             network,
@@ -376,6 +379,7 @@ where
                 // store slice Merkle root
                 self.slice_roots
                     .insert((block_id.clone(), last_slice), root);
+                self.last_slices.insert(block_id.clone(), last_slice);
 
                 // issue next requests
                 // TODO: do not request last slice root again
@@ -434,6 +438,15 @@ where
                 // shred for the wrong slice root, don't even try to verify signature
                 if &shred.slice_root() != root {
                     warn!("repair response (Shred) with slice root not matching proved slice root");
+                    return;
+                }
+                // the last-slice flag is signed together with the slice root, so a leader can sign
+                // the same slice with both flags; only the one matching the proven last slice
+                // index belongs to this block, the other would make the blockstore reject the
+                // block's genuine shreds as equivocation
+                let is_last = self.last_slices.get(block_id) == Some(&slice);
+                if shred.payload().header.is_last != is_last {
+                    warn!("repair response (Shred) with last flag not matching proved last slice");
                     return;
                 }
                 // have no commitment cache for repair, always verify signature (i.e. `None` here)
